@@ -74,6 +74,9 @@ FIXED = {
    ("C01", "paths with '..' reached sibling directories whose name starts with the root's name (afero BasePathFs tests a bare string prefix): stat/list/open/create/delete/mkdir/rmdir/dir-size outside the root", "STAT /../root-other/x.txt answered the sibling's file; os-path-outside-root sibling:root-other; syscall-path-outside-root")],
  "decrypt prints its progress line to stderr": [
    ("C20", "decrypt wrote its progress message to standard output in front of the image when the output is '-'", "decrypt-output-differs redump-to-stdout / 3k3y-to-stdout")],
+ "decrypting view answers reads beyond the 32-bit sector range": [
+   ("C04", "a critical or ordinary read on a decrypted image at an offset just below 2^42 (2^31 sectors) made EncryptedISO.readAt call make() with a negative length: panic, whole server down (regression of the whole-sector rewrite, found by a sub-agent while writing property-preserving changes; the far-offset family was then added to C02/C04/C09/C10)", "process-died hostile-session READCRIT n=2048 off=13194139531263 on /PS3ISO/enc.iso; not-serving"),
+   ("C10", "Read/ReadAt of the decrypting view far beyond the image: panic (makeslice / slice bounds) near 2^42 and 2^63, 'negative offset' errors instead of EOF, sector number wrapped above 2^43", "panic makeslice: len out of range; read past-end")],
  "decrypt 3k3y also removes the watermark": [
    ("C20", "decrypt 3k3y output kept watermark+key with a cleared region table: placed under a served root it could not be opened (second transformation attempted)", "serve-back-failed 3k3y-from-PS3ISO / 3k3y-from-GAMES")],
 }
